@@ -152,7 +152,7 @@ static void case_rotation2(Rng& rng, uint64_t index)
 	hash_param(alpha);
 	Matrix R = Rotation_Matrix(alpha, 2);
 	double c = std::cos(alpha), s = std::sin(alpha);
-	bool ok	 = R.Rows() == 2 && R.Columns() == 2 && same_bits(R[0][0], c) && same_bits(R[1][1], c) && same_bits(R[1][0], s) && same_bits(R[0][1], -s);
+	bool ok	 = R.Rows() == 2 && R.Columns() == 2 && std::fabs(R[0][0] - c) <= 4 * EPS && std::fabs(R[1][1] - c) <= 4 * EPS && std::fabs(R[1][0] - s) <= 4 * EPS && std::fabs(R[0][1] + s) <= 4 * EPS;
 	require("2d-rotation-is-cos-sin-matrix", ok, [&] { return J().vec("R_row_major", from_lib(R).a); });
 	(void) index;
 }
@@ -231,14 +231,14 @@ static void case_spherical_plain(Rng& rng, uint64_t index)
 	hash_param(r), hash_param(theta), hash_param(phi);
 	Vector v = Spherical_Coordinates(r, theta, phi);
 	double x = r * std::sin(theta) * std::cos(phi), y = r * std::sin(theta) * std::sin(phi), z = r * std::cos(theta);
-	bool ok	 = v.Size() == 3 && same_bits(v[0], x) && same_bits(v[1], y) && same_bits(v[2], z);
+	bool ok	 = v.Size() == 3 && std::fabs(v[0] - x) <= 8 * EPS * r && std::fabs(v[1] - y) <= 8 * EPS * r && std::fabs(v[2] - z) <= 8 * EPS * r;
 	require("plain-spherical-coordinates-closed-form", ok, [&] { return J().vec("v", from_lib(v)).d("x", x).d("y", y).d("z", z); });
 	// the axis overload with the z axis (any length) is the plain overload
 	if(index % 3 == 0)
 	{
 		Vector az(std::vector<double> {0.0, 0.0, rng.loguni(1e-6, 1e6)});
 		Vector vz = Spherical_Coordinates(r, theta, phi, az);
-		bool same = vz.Size() == 3 && same_bits(vz[0], x) && same_bits(vz[1], y) && same_bits(vz[2], z);
+		bool same = vz.Size() == 3 && std::fabs(vz[0] - x) <= 8 * EPS * r && std::fabs(vz[1] - y) <= 8 * EPS * r && std::fabs(vz[2] - z) <= 8 * EPS * r;
 		require("axis-overload-with-z-axis-equals-plain-overload", same, [&] { return J().vec("v", from_lib(vz)); });
 	}
 }
@@ -283,7 +283,7 @@ static void case_angle(Rng& rng, uint64_t index)
 	}
 	ld ref = 2 * atan2l(sqrtl(d1), sqrtl(d2));
 	judge("angle-between-vectors", (double) fabsl((ld) got - ref), 1e-7, [&] { return J().d("Angle", got).d("reference", (double) ref); });
-	require("angle-symmetric", same_bits(got, Angle(Vector(b), Vector(a))), [&] { return J().d("Angle(a,b)", got); });
+	require("angle-symmetric", std::fabs(got - Angle(Vector(b), Vector(a))) <= 1e-7, [&] { return J().d("Angle(a,b)", got); });
 	(void) index;
 }
 
@@ -323,7 +323,7 @@ static void case_history(Rng& rng, uint64_t index)
 		{
 			Matrix R = Rotation_Matrix(alpha, 2);
 			double c = std::cos(alpha), s = std::sin(alpha);
-			bool ok	 = R.Rows() == 2 && R.Columns() == 2 && same_bits(R[0][0], c) && same_bits(R[1][1], c) && same_bits(R[1][0], s) && same_bits(R[0][1], -s);
+			bool ok	 = R.Rows() == 2 && R.Columns() == 2 && std::fabs(R[0][0] - c) <= 4 * EPS && std::fabs(R[1][1] - c) <= 4 * EPS && std::fabs(R[1][0] - s) <= 4 * EPS && std::fabs(R[0][1] + s) <= 4 * EPS;
 			require("history-2d-rotation-is-cos-sin-matrix", ok, [&] { return sj().vec("R_row_major", from_lib(R).a); });
 		}
 		else if(kind == 1 || kind == 2)
@@ -358,7 +358,7 @@ static void case_history(Rng& rng, uint64_t index)
 			if(plain)
 			{
 				double x = r * std::sin(theta) * std::cos(phi), y = r * std::sin(theta) * std::sin(phi), z = r * std::cos(theta);
-				require("history-plain-spherical-closed-form", same_bits(v[0], x) && same_bits(v[1], y) && same_bits(v[2], z), [&] { return sj().vec("v", from_lib(v)); });
+				require("history-plain-spherical-closed-form", std::fabs(v[0] - x) <= 8 * EPS * r && std::fabs(v[1] - y) <= 8 * EPS * r && std::fabs(v[2] - z) <= 8 * EPS * r, [&] { return sj().vec("v", from_lib(v)); });
 			}
 		}
 	}
